@@ -5,7 +5,11 @@
 //!
 //! Case line:  `io <wrap> <v|s> <read-script> <write-script> <prog>`
 //!   wrap   t = TcpStream, c = TcpClientStream, o = TimeoutStream(0 = off), O = TimeoutStream(1 h)
-//!   v|s    socket with a real `poll_write_vectored` / with the default one only
+//!   v|s    socket with a real `poll_write_vectored` / with the default one only;
+//!          V|S the same two kinds of socket as a *tokio* transport behind the
+//!          `hickory_net::runtime::iocompat::AsyncIoTokioAsStd` adapter (V: own tokio socket that is
+//!          write-vectored; S: `AsyncIoTokioAsStd(AsyncIoStdAsTokio(socket))`, i.e. through both
+//!          adapters, not write-vectored); the model treats the adapters as transparent (V = v, S = s)
 //!   read   `d<hex>` k bytes available, `p` Pending (waker woken at once), `e` EOF, `x` Err; `-` empty;
 //!          an exhausted script blocks for ever (Pending, nobody wakes the task)
 //!   write  `a<n>` accept up to n bytes, `p` Pending, `x` Err; exhausted = blocks for ever;
@@ -25,6 +29,7 @@ use std::time::Duration;
 
 use futures_io::{AsyncRead, AsyncWrite};
 use futures_util::stream::{Stream, StreamExt};
+use hickory_net::runtime::iocompat::{AsyncIoStdAsTokio, AsyncIoTokioAsStd};
 use hickory_net::runtime::{DnsTcpStream, TokioTime};
 use hickory_net::tcp::{TcpClientStream, TcpStream};
 use hickory_net::xfer::DnsStreamHandle;
@@ -183,6 +188,74 @@ impl DnsTcpStream for ScriptSock {
     type Time = TokioTime;
 }
 
+/// the scripted socket as a tokio transport that is write-vectored
+struct TokioSock(Arc<Mutex<Sock>>);
+
+impl tokio::io::AsyncRead for TokioSock {
+    fn poll_read(self: Pin<&mut Self>, cx: &mut Context<'_>, buf: &mut tokio::io::ReadBuf<'_>) -> Poll<io::Result<()>> {
+        let mut inner = ScriptSock(self.0.clone());
+        let dst = buf.initialize_unfilled();
+        match Pin::new(&mut inner).poll_read(cx, dst) {
+            Poll::Ready(Ok(n)) => {
+                buf.advance(n);
+                Poll::Ready(Ok(()))
+            }
+            Poll::Ready(Err(e)) => Poll::Ready(Err(e)),
+            Poll::Pending => Poll::Pending,
+        }
+    }
+}
+
+impl tokio::io::AsyncWrite for TokioSock {
+    fn poll_write(self: Pin<&mut Self>, cx: &mut Context<'_>, buf: &[u8]) -> Poll<io::Result<usize>> {
+        let mut inner = ScriptSock(self.0.clone());
+        Pin::new(&mut inner).poll_write(cx, buf)
+    }
+    fn poll_write_vectored(self: Pin<&mut Self>, cx: &mut Context<'_>, bufs: &[IoSlice<'_>]) -> Poll<io::Result<usize>> {
+        let mut inner = ScriptSock(self.0.clone());
+        Pin::new(&mut inner).poll_write_vectored(cx, bufs)
+    }
+    fn is_write_vectored(&self) -> bool {
+        self.0.lock().unwrap().vectored
+    }
+    fn poll_flush(self: Pin<&mut Self>, cx: &mut Context<'_>) -> Poll<io::Result<()>> {
+        let mut inner = ScriptSock(self.0.clone());
+        Pin::new(&mut inner).poll_flush(cx)
+    }
+    fn poll_shutdown(self: Pin<&mut Self>, _cx: &mut Context<'_>) -> Poll<io::Result<()>> {
+        Poll::Ready(Ok(()))
+    }
+}
+
+/// a tokio transport behind hickory's tokio-to-futures adapter (local newtype: `DnsTcpStream` can
+/// only be implemented for a local type; every method goes straight to the adapter)
+struct Adapted<T: tokio::io::AsyncRead + tokio::io::AsyncWrite>(AsyncIoTokioAsStd<T>);
+
+impl<T: tokio::io::AsyncRead + tokio::io::AsyncWrite + Unpin> AsyncRead for Adapted<T> {
+    fn poll_read(mut self: Pin<&mut Self>, cx: &mut Context<'_>, buf: &mut [u8]) -> Poll<io::Result<usize>> {
+        Pin::new(&mut self.0).poll_read(cx, buf)
+    }
+}
+
+impl<T: tokio::io::AsyncRead + tokio::io::AsyncWrite + Unpin> AsyncWrite for Adapted<T> {
+    fn poll_write(mut self: Pin<&mut Self>, cx: &mut Context<'_>, buf: &[u8]) -> Poll<io::Result<usize>> {
+        Pin::new(&mut self.0).poll_write(cx, buf)
+    }
+    fn poll_write_vectored(mut self: Pin<&mut Self>, cx: &mut Context<'_>, bufs: &[IoSlice<'_>]) -> Poll<io::Result<usize>> {
+        Pin::new(&mut self.0).poll_write_vectored(cx, bufs)
+    }
+    fn poll_flush(mut self: Pin<&mut Self>, cx: &mut Context<'_>) -> Poll<io::Result<()>> {
+        Pin::new(&mut self.0).poll_flush(cx)
+    }
+    fn poll_close(mut self: Pin<&mut Self>, cx: &mut Context<'_>) -> Poll<io::Result<()>> {
+        Pin::new(&mut self.0).poll_close(cx)
+    }
+}
+
+impl<T: tokio::io::AsyncRead + tokio::io::AsyncWrite + Unpin + Send + Sync + 'static> DnsTcpStream for Adapted<T> {
+    type Time = TokioTime;
+}
+
 struct Flag(AtomicBool);
 impl Wake for Flag {
     fn wake(self: Arc<Self>) {
@@ -217,6 +290,8 @@ impl Tok {
 struct Case {
     wrap: char,
     vec: bool,
+    /// the socket is a tokio transport behind `AsyncIoTokioAsStd`
+    adapted: bool,
     rs: Vec<REv>,
     ws: Vec<WEv>,
     prog: Vec<Act>,
@@ -238,9 +313,11 @@ fn parse_case(t: &[&str]) -> Option<Case> {
         "O" => 'O',
         _ => return None,
     };
-    let vec = match *vec {
-        "v" => true,
-        "s" => false,
+    let (vec, adapted) = match *vec {
+        "v" => (true, false),
+        "s" => (false, false),
+        "V" => (true, true),
+        "S" => (false, true),
         _ => return None,
     };
     let rs = parse_list(rs, |e| match e {
@@ -264,7 +341,7 @@ fn parse_case(t: &[&str]) -> Option<Case> {
             }
         }
     })?;
-    Some(Case { wrap, vec, rs, ws, prog })
+    Some(Case { wrap, vec, adapted, rs, ws, prog })
 }
 
 fn show_rs(rs: &[REv]) -> String {
@@ -348,12 +425,24 @@ fn run_case(c: &Case) -> RunOut {
         ..Default::default()
     }));
     let _guard = tokio_rt().enter();
-    let (tcp, mut handle) = TcpStream::from_stream(ScriptSock(sock.clone()), peer);
-    let mut stream: Items = match c.wrap {
-        't' => Box::pin(tcp.map(|r| r.map(|m| m.into_parts().0).map_err(|_| ()))),
-        'c' => Box::pin(TcpClientStream::from_stream(tcp).map(|r| r.map(|m| m.into_parts().0).map_err(|_| ()))),
-        'o' => Box::pin(TimeoutStream::new(tcp, Duration::from_secs(0)).map(|r| r.map(|m| m.into_parts().0).map_err(|_| ()))),
-        _ => Box::pin(TimeoutStream::new(tcp, Duration::from_secs(3600)).map(|r| r.map(|m| m.into_parts().0).map_err(|_| ()))),
+    fn wrap<S: DnsTcpStream>(wrap: char, tcp: TcpStream<S>) -> Items {
+        match wrap {
+            't' => Box::pin(tcp.map(|r| r.map(|m| m.into_parts().0).map_err(|_| ()))),
+            'c' => Box::pin(TcpClientStream::from_stream(tcp).map(|r| r.map(|m| m.into_parts().0).map_err(|_| ()))),
+            'o' => Box::pin(TimeoutStream::new(tcp, Duration::from_secs(0)).map(|r| r.map(|m| m.into_parts().0).map_err(|_| ()))),
+            _ => Box::pin(TimeoutStream::new(tcp, Duration::from_secs(3600)).map(|r| r.map(|m| m.into_parts().0).map_err(|_| ()))),
+        }
+    }
+    let (mut stream, mut handle): (Items, _) = if !c.adapted {
+        let (tcp, handle) = TcpStream::from_stream(ScriptSock(sock.clone()), peer);
+        (wrap(c.wrap, tcp), handle)
+    } else if c.vec {
+        let (tcp, handle) = TcpStream::from_stream(Adapted(AsyncIoTokioAsStd(TokioSock(sock.clone()))), peer);
+        (wrap(c.wrap, tcp), handle)
+    } else {
+        let (tcp, handle) =
+            TcpStream::from_stream(Adapted(AsyncIoTokioAsStd(AsyncIoStdAsTokio(ScriptSock(sock.clone())))), peer);
+        (wrap(c.wrap, tcp), handle)
     };
     let flag = Arc::new(Flag(AtomicBool::new(false)));
     let waker = Waker::from(flag.clone());
@@ -972,12 +1061,23 @@ fn enumerate(o: &Opts, rec: &mut Recorder) {
                 }
                 lines.push(case_line('t', true, &[REv::Eof], &ws, &prog));
                 lines.push(case_line('t', false, &[REv::Eof], &ws, &prog));
+                lines.push(adapted(&case_line('t', true, &[REv::Eof], &ws, &prog)));
+                lines.push(adapted(&case_line('t', false, &[REv::Eof], &ws, &prog)));
             });
             for l in lines {
                 exec(&l, rec);
             }
         }
     }
+}
+
+/// the same case with the socket as a tokio transport behind `AsyncIoTokioAsStd` (v -> V, s -> S)
+fn adapted(line: &str) -> String {
+    let mut t: Vec<String> = line.split(' ').map(|x| x.to_string()).collect();
+    if t.len() > 2 {
+        t[2] = t[2].to_uppercase();
+    }
+    t.join(" ")
 }
 
 /// hand-built cases that are too long for the corpus file
@@ -1010,7 +1110,7 @@ fn built() -> Vec<String> {
 }
 
 pub fn run(o: &Opts, rec: &mut Recorder) {
-    rec.rule = "scripted sockets from a seeded generator: 0-3 framed messages of lengths 1..300 (1, 2, 255, 256 forced often), zero-length frames, six chunking styles (all 1-byte, small, large, whole, cuts inside every length prefix, mixed), Pending sprinkled at four densities, EOF at the boundary / inside prefix / inside body, read errors, open ends; 0-3 outbound messages with acceptance scripts (1-byte, small, large, accept-0, Pending, errors, blocked), sends up front or interleaved with polls; plus ALL compositions of small streams (see distribution). Non-trivial: at least one message delivered or framed bytes written through a multi-event script; distinct by case line".into();
+    rec.rule = "scripted sockets from a seeded generator: 0-3 framed messages of lengths 1..300 (1, 2, 255, 256 forced often), zero-length frames, six chunking styles (all 1-byte, small, large, whole, cuts inside every length prefix, mixed), Pending sprinkled at four densities, EOF at the boundary / inside prefix / inside body, read errors, open ends; 0-3 outbound messages with acceptance scripts (1-byte, small, large, accept-0, Pending, errors, blocked), sends up front or interleaved with polls; one case in three with the socket as a tokio transport behind the iocompat adapters (V/S); plus ALL compositions of small streams (see distribution; the send direction also through the adapters). Non-trivial: at least one message delivered or framed bytes written through a multi-event script; distinct by case line".into();
     for l in o.pre_lines.clone() {
         exec(&l, rec);
     }
@@ -1026,7 +1126,10 @@ pub fn run(o: &Opts, rec: &mut Recorder) {
     rec.stat_n("enumerated.all-compositions-cases", (rec.cases.len() - before) as u64);
     let mut r = Rng::new(o.seed);
     for _ in 0..o.n(12_000, 300_000) {
-        let l = gen_case(&mut r);
+        let mut l = gen_case(&mut r);
+        if r.chance(1, 3) {
+            l = adapted(&l);
+        }
         exec(&l, rec);
     }
 }
